@@ -25,10 +25,15 @@
          real stdout, and that each prompt text is exactly what that debugger wrote since its
          last readline.
 
-    Modelled, not verified: pdb.Pdb / cmd.Cmd (CPython) write everything to the `stdout` they
-    were constructed with (sys.stdout when none was given) and read commands with
-    `stdin.readline()` when a stdout was given; one Pdb per trace number, running in the thread
-    or task of that trace (C06's tie); a write() call is atomic with respect to the others. *)
+    The behaviour of pdb.Pdb / cmd.Cmd (CPython) is NOT translated.  Writing to the `stdout` they were constructed
+    with (and reading commands with `stdin.readline()`) are the labels LDbgWrite/LDbgFlush/LDbgReadline; what
+    CPython's pdb does BESIDE that has labels of its own: LDbgSysWrite (`help pdb` -> pydoc.pager -> sys.stdout;
+    `interact` -> input() prompt) and LSwapOn/LSwapOff (Pdb.default binds sys.stdout to its own stream, process-wide,
+    while a `!statement` runs).  The theorems about the debugger's text carry the assumptions as HYPOTHESES on the
+    label list ([no_sys_write], [no_swap]); [reported_and_real_exact] says what happens without them, and section 8b
+    gives the two witnesses that the assumptions are false of CPython 3.12's pdb (both reproduced against /repo by
+    harness/props/c13.py: known findings).  Also assumed: one Pdb per trace number, running in the thread or task of
+    that trace (C06's tie); a write() call is atomic with respect to the others. *)
 From NL Require Import Stdout.Spec Stdout.Proofs Stdout.DebugSyntax Gen.DebuggerStream.
 From Coq Require Import String Lia.
 Open Scope Z_scope.
@@ -527,7 +532,38 @@ Inductive dlabel :=
 | LScript (a : pykey) (s : text)
 | LDbgWrite (n : Z) (s : text)
 | LDbgFlush (n : Z)
-| LDbgReadline (n : Z) (c : text).
+| LDbgReadline (n : Z) (c : text)
+(* what CPython's pdb does BESIDE writing to the stdout it was constructed with: *)
+| LDbgSysWrite (n : Z) (s : text)   (* the Pdb of trace n writes s to sys.stdout: `help pdb` (pydoc.pager), the prompt of
+                                       `interact` (input()), an override that print()s *)
+| LSwapOn (n : Z)                   (* Pdb.default of trace n (a `!statement` / any Python statement as a command):
+                                       save_stdout = sys.stdout; sys.stdout = self.stdout   -- PROCESS-WIDE *)
+| LSwapOff (n : Z).                 (* ... finally: sys.stdout = save_stdout *)
+
+(** what `sys.stdout` is bound to: the object peek_textio patched, or the stdout of trace n's Pdb *)
+Inductive sysout := Patched | Swapped (n : Z).
+Definition zupd (f : Z -> sysout) (n : Z) (v : sysout) : Z -> sysout := fun m => if Z.eqb m n then v else f m.
+
+(** the assumptions under which the debugger is "well behaved", as predicates on the label list *)
+Definition no_sys_write (ls : list dlabel) : Prop :=
+  forallb (fun l => match l with LDbgSysWrite _ _ => false | _ => true end) ls = true.
+Definition no_swap (ls : list dlabel) : Prop :=
+  forallb (fun l => match l with LSwapOn _ | LSwapOff _ => false | _ => true end) ls = true.
+
+(** the writes that reach the PATCHED sys.stdout.write, in order: a script write or a debugger's sys.stdout write made
+    while sys.stdout is the patched object (sy: what sys.stdout is, sv: the save_stdout of each trace's Pdb.default) *)
+Fixpoint reaching_go (ls : list dlabel) (sy : sysout) (sv : Z -> sysout) : list label :=
+  match ls with
+  | [] => []
+  | LScript a s :: r =>
+      match sy with Patched => Write a s :: reaching_go r sy sv | Swapped _ => reaching_go r sy sv end
+  | LDbgSysWrite n s :: r =>
+      match sy with Patched => Write (Some n) s :: reaching_go r sy sv | Swapped _ => reaching_go r sy sv end
+  | LSwapOn n :: r => reaching_go r (Swapped n) (zupd sv n sy)
+  | LSwapOff n :: r => reaching_go r (sv n) sv
+  | _ :: r => reaching_go r sy sv
+  end.
+Definition reaching (ls : list dlabel) : list label := reaching_go ls Patched (fun _ => Patched).
 
 (** what the script wrote, as the labels of Stdout/Model.v; the run without the debugger *)
 Fixpoint script_writes (ls : list dlabel) : list label :=
@@ -581,12 +617,15 @@ Section TwoSink.
     g_objs : pykey -> string -> sobj;         (* StdInOut objects: owner (Some n: made by the _factory() call of trace n;
                                                  None: made once by Factory) and the variable that holds it *)
     g_prompts : list (Z * text);              (* calls of the prompt function: (trace whose Pdb asked, text) *)
-    g_cmds : list (Z * text)                  (* what readline returned to the Pdb of trace n *)
+    g_cmds : list (Z * text);                 (* what readline returned to the Pdb of trace n *)
+    g_sys : sysout;                           (* what sys.stdout is bound to *)
+    g_saved : Z -> sysout                     (* save_stdout of the Pdb.default call of trace n *)
   }.
 
-  Definition set_w (w : W) (st : gstate) : gstate := mkG w (g_objs st) (g_prompts st) (g_cmds st).
+  Definition set_w (w : W) (st : gstate) : gstate := mkG w (g_objs st) (g_prompts st) (g_cmds st) (g_sys st) (g_saved st).
   Definition set_obj (ow : pykey) (x : string) (ob : sobj) (st : gstate) : gstate :=
-    mkG (g_w st) (fun o' x' => if key_eqb o' ow && String.eqb x' x then ob else g_objs st o' x') (g_prompts st) (g_cmds st).
+    mkG (g_w st) (fun o' x' => if key_eqb o' ow && String.eqb x' x then ob else g_objs st o' x') (g_prompts st) (g_cmds st)
+        (g_sys st) (g_saved st).
 
   (** one call of the PATCHED sys.stdout.write(s) while current_trace_no() = a: the regenerated wrapper *)
   Definition sys_write (a : pykey) (s : text) (st : gstate) : gstate :=
@@ -602,7 +641,7 @@ Section TwoSink.
   (** the calls a method of StdInOut made, executed by trace n *)
   Definition apply_ofx (n : Z) (st : gstate) (x : effect) : gstate :=
     match x with
-    | FxPrompt (VText t) => mkG (g_w st) (g_objs st) (g_prompts st ++ [(n, t)]) (g_cmds st)
+    | FxPrompt (VText t) => mkG (g_w st) (g_objs st) (g_prompts st ++ [(n, t)]) (g_cmds st) (g_sys st) (g_saved st)
     | FxSysWrite (VText u) => sys_write (Some n) u st
     | _ => st
     end.
@@ -612,7 +651,7 @@ Section TwoSink.
     let '(ob', fx, r) := so_call (obj_oracle c) m (g_objs st ow x) pos in
     let st1 := fold_left (apply_ofx n) fx (set_obj ow x ob' st) in
     match is_readline, r with
-    | true, Some (VText c') => mkG (g_w st1) (g_objs st1) (g_prompts st1) (g_cmds st1 ++ [(n, c')])
+    | true, Some (VText c') => mkG (g_w st1) (g_objs st1) (g_prompts st1) (g_cmds st1 ++ [(n, c')]) (g_sys st1) (g_saved st1)
     | _, _ => st1
     end.
 
@@ -626,22 +665,35 @@ Section TwoSink.
   Definition pdb_stdin : stream := match pdb_streams prompt with Some (i, _) => i | None => Unresolved end.
   Definition pdb_stdout : stream := match pdb_streams prompt with Some (_, o) => o | None => Unresolved end.
 
+  (** the Pdb of trace n writes s to the stdout it was constructed with *)
+  Definition dbg_write (n : Z) (s : text) (st : gstate) : gstate :=
+    match pdb_stdout with
+    | SysStdout | PdbDefault => sys_write (Some n) s st     (* Pdb prints through the patched sys.stdout, in trace n *)
+    | so => to_stream so n stdinout_write [] [VText s] false st
+    end.
+
+  (** `sys.stdout.write(s)` / print(s) executed while current_trace_no() = a: sys.stdout is looked up at the call *)
+  Definition cur_sys_write (a : pykey) (s : text) (st : gstate) : gstate :=
+    match g_sys st with
+    | Patched => sys_write a s st
+    | Swapped n => dbg_write n s st          (* lands in the stream of trace n's Pdb *)
+    end.
+
   Definition dstep (st : gstate) (l : dlabel) : gstate :=
     match l with
-    | LScript a s => sys_write a s st
-    | LDbgWrite n s =>
-        match pdb_stdout with
-        | SysStdout | PdbDefault => sys_write (Some n) s st     (* Pdb prints through the patched sys.stdout, in trace n *)
-        | so => to_stream so n stdinout_write [] [VText s] false st
-        end
+    | LScript a s => cur_sys_write a s st
+    | LDbgWrite n s => dbg_write n s st
     | LDbgFlush n => to_stream pdb_stdout n stdinout_flush [] [] false st
     | LDbgReadline n c => to_stream pdb_stdin n stdinout_readline c [] true st
+    | LDbgSysWrite n s => cur_sys_write (Some n) s st
+    | LSwapOn n => mkG (g_w st) (g_objs st) (g_prompts st) (g_cmds st) (Swapped n) (zupd (g_saved st) n (g_sys st))
+    | LSwapOff n => mkG (g_w st) (g_objs st) (g_prompts st) (g_cmds st) (g_saved st n) (g_saved st)
     end.
 
   Definition init_obj (x : string) : sobj :=
     match obj_of_stream prompt (SelfStdio x) with Some ob => ob | None => mkS VJunk VJunk VJunk end.
 
-  Definition ginit (w : W) : gstate := mkG w (fun _ x => init_obj x) [] [].
+  Definition ginit (w : W) : gstate := mkG w (fun _ x => init_obj x) [] [] Patched (fun _ => Patched).
   Definition grun (w : W) (ls : list dlabel) : gstate := fold_left dstep ls (ginit w).
 
   (** ---- the debugger's labels never touch the world of the callback / the real stdout *)
@@ -669,38 +721,128 @@ Section TwoSink.
     g_w (to_stream s n m c pos rl st) = g_w st.
   Proof. intros. destruct s; simpl; auto; apply on_obj_w; auto. Qed.
 
+  (** ---- sys.stdout's binding changes only at the swap labels *)
+  Definition g_sw (st : gstate) : sysout * (Z -> sysout) := (g_sys st, g_saved st).
+
+  Lemma apply_ofx_sw : forall n fx st, g_sw (fold_left (apply_ofx n) fx st) = g_sw st.
+  Proof.
+    intros n fx. induction fx as [|x fx IH]; intro st; simpl; auto.
+    rewrite IH. destruct x; try reflexivity; destruct v; reflexivity.
+  Qed.
+
+  Lemma on_obj_sw : forall ow x n m c pos rl st, g_sw (on_obj ow x n m c pos rl st) = g_sw st.
+  Proof.
+    intros. unfold on_obj. destruct (so_call (obj_oracle c) m (g_objs st ow x) pos) as [[ob' fx] r].
+    assert (E : g_sw (fold_left (apply_ofx n) fx (set_obj ow x ob' st)) = g_sw st) by (rewrite apply_ofx_sw; reflexivity).
+    destruct rl; auto. destruct r as [[]|]; auto.
+  Qed.
+
+  Lemma to_stream_sw : forall s n m c pos rl st, g_sw (to_stream s n m c pos rl st) = g_sw st.
+  Proof. intros. destruct s; simpl; auto; apply on_obj_sw. Qed.
+
+  Lemma dbg_write_sw : forall n s st, g_sw (dbg_write n s st) = g_sw st.
+  Proof. intros. unfold dbg_write. destruct pdb_stdout; try reflexivity; apply to_stream_sw. Qed.
+
+  Lemma cur_sys_write_sw : forall a s st, g_sw (cur_sys_write a s st) = g_sw st.
+  Proof. intros. unfold cur_sys_write. destruct (g_sys st); [reflexivity | apply dbg_write_sw]. Qed.
+
+  Lemma dstep_sw : forall st l,
+    g_sw (dstep st l) =
+    match l with
+    | LSwapOn n => (Swapped n, zupd (g_saved st) n (g_sys st))
+    | LSwapOff n => (g_saved st n, g_saved st)
+    | _ => g_sw st
+    end.
+  Proof.
+    intros st l. destruct l; unfold dstep; try reflexivity;
+      auto using cur_sys_write_sw, dbg_write_sw, to_stream_sw.
+  Qed.
+
+  (** a write to the stdout the Pdb was constructed with never touches the world of the callback / the real stdout *)
+  Lemma dbg_write_w : forall n s st, g_w (dbg_write n s st) = g_w st.
+  Proof.
+    intros. destruct (pdb_stdout_private prompt) as (i & o & HS & HP).
+    unfold dbg_write, pdb_stdout; rewrite HS.
+    destruct o; try discriminate; apply to_stream_w; intro ob; rewrite write_quiet; reflexivity.
+  Qed.
+
   Lemma dstep_w : forall st l,
-    g_w (dstep st l) = match l with LScript a s => org s (cbk a s (g_w st)) | _ => g_w st end.
+    g_w (dstep st l) =
+    match l, g_sys st with
+    | LScript a s, Patched => org s (cbk a s (g_w st))
+    | LDbgSysWrite n s, Patched => org s (cbk (Some n) s (g_w st))
+    | _, _ => g_w st
+    end.
   Proof.
     intros st l.
-    destruct (pdb_stdout_private prompt) as (i & o & HS & HP).
-    destruct l as [a s|n s|n|n c]; unfold dstep.
-    - reflexivity.
-    - unfold pdb_stdout; rewrite HS.
-      destruct o; try discriminate; apply to_stream_w; intro ob; rewrite write_quiet; reflexivity.
-    - apply to_stream_w; intro ob; rewrite flush_quiet; reflexivity.
-    - apply to_stream_w; intro ob; apply readline_quiet.
+    destruct l as [a s|n s|n|n c|n s|n|n]; unfold dstep.
+    - unfold cur_sys_write. destruct (g_sys st); [reflexivity | apply dbg_write_w].
+    - rewrite dbg_write_w. destruct (g_sys st); reflexivity.
+    - rewrite to_stream_w; [destruct (g_sys st); reflexivity | intro ob; rewrite flush_quiet; reflexivity].
+    - rewrite to_stream_w; [destruct (g_sys st); reflexivity | intro ob; apply readline_quiet].
+    - unfold cur_sys_write. destruct (g_sys st); [reflexivity | apply dbg_write_w].
+    - destruct (g_sys st); reflexivity.
+    - destruct (g_sys st); reflexivity.
   Qed.
 
-  (** the world after a run is the script's writes alone, each through callback-then-original-write *)
+  Definition wstep (w : W) (l : label) : W := org (text_of l) (cbk (actor_of l) (text_of l) w).
+
+  (** EXACT, no assumption on the debugger: the world after a run is that of the writes that REACH the patched
+      sys.stdout, each through callback-then-original-write *)
   Lemma grun_w_gen : forall ls st,
-    g_w (fold_left dstep ls st) =
-    fold_left (fun w l => org (text_of l) (cbk (actor_of l) (text_of l) w)) (script_writes ls) (g_w st).
+    g_w (fold_left dstep ls st) = fold_left wstep (reaching_go ls (g_sys st) (g_saved st)) (g_w st).
   Proof.
     induction ls as [|l ls IH]; intro st; simpl; auto.
-    rewrite IH, dstep_w. destruct l; reflexivity.
+    rewrite IH, dstep_w.
+    pose proof (f_equal fst (dstep_sw st l)) as E1. pose proof (f_equal snd (dstep_sw st l)) as E2.
+    unfold g_sw in E1, E2. cbn [fst snd] in E1, E2. rewrite E1, E2.
+    destruct l; cbn [fst snd]; try reflexivity; destruct (g_sys st); reflexivity.
   Qed.
 
-  Lemma grun_w : forall w ls,
-    g_w (grun w ls) = fold_left (fun w l => org (text_of l) (cbk (actor_of l) (text_of l) w)) (script_writes ls) w.
+  Lemma grun_w_reaching : forall w ls, g_w (grun w ls) = fold_left wstep (reaching ls) w.
   Proof. intros. unfold grun. rewrite grun_w_gen. reflexivity. Qed.
+
+  (** under the two assumptions the writes that reach it are exactly the script's *)
+  Lemma reaching_clean : forall ls sv, no_sys_write ls -> no_swap ls -> reaching_go ls Patched sv = script_writes ls.
+  Proof.
+    unfold no_sys_write, no_swap.
+    induction ls as [|l ls IH]; intros sv H1 H2; simpl in *; auto.
+    destruct l; simpl in *; try discriminate; try (apply IH; assumption).
+    rewrite IH by assumption. reflexivity.
+  Qed.
+
+  Lemma grun_w : forall w ls, no_sys_write ls -> no_swap ls ->
+    g_w (grun w ls) = fold_left wstep (script_writes ls) w.
+  Proof. intros. rewrite grun_w_reaching. unfold reaching. rewrite reaching_clean by assumption. reflexivity. Qed.
 
   Lemma script_writes_erase : forall ls, script_writes (erase_dbg ls) = script_writes ls.
   Proof. induction ls as [|[] ls IH]; simpl; auto. rewrite IH; reflexivity. Qed.
 
+  Lemma erase_clean : forall ls, no_sys_write (erase_dbg ls) /\ no_swap (erase_dbg ls).
+  Proof.
+    unfold no_sys_write, no_swap. induction ls as [|[] ls [IH1 IH2]]; simpl; auto.
+  Qed.
+
   (** NON-INTERFERENCE: erasing every label of the debugger leaves the world unchanged *)
-  Lemma grun_noninterference : forall w ls, g_w (grun w (erase_dbg ls)) = g_w (grun w ls).
-  Proof. intros. rewrite !grun_w, script_writes_erase. reflexivity. Qed.
+  Lemma grun_noninterference : forall w ls, no_sys_write ls -> no_swap ls ->
+    g_w (grun w (erase_dbg ls)) = g_w (grun w ls).
+  Proof.
+    intros w ls H1 H2. destruct (erase_clean ls) as [E1 E2].
+    rewrite !grun_w by assumption. rewrite script_writes_erase. reflexivity.
+  Qed.
+
+  (** while nothing swaps sys.stdout it stays the patched object *)
+  Lemma grun_sys_patched : forall w ls, no_swap ls -> g_sw (grun w ls) = (Patched, fun _ => Patched).
+  Proof.
+    intros w ls. unfold no_swap, grun.
+    assert (G : forall st, g_sw st = (Patched, fun _ => Patched) ->
+                forallb (fun l => match l with LSwapOn _ | LSwapOff _ => false | _ => true end) ls = true ->
+                g_sw (fold_left dstep ls st) = (Patched, fun _ => Patched)).
+    { induction ls as [|l ls IH]; intros st E H; simpl in *; auto.
+      apply andb_prop in H. destruct H as [Hl H]. apply IH; auto.
+      rewrite dstep_sw. destruct l; try discriminate; exact E. }
+    intro H. apply G; auto.
+  Qed.
 
   (** ---- the prompt text.  History functions (of the label list alone): what the debugger of
       trace n has written since its last ACCEPTED readline, the texts handed to the prompt
@@ -746,20 +888,25 @@ Section TwoSink.
   Lemma grun_good : forall x0,
     pdb_streams prompt = Some (SelfStdio x0, SelfStdio x0) ->
     obj_of_stream prompt (SelfStdio x0) = Some (mkS (VText prompt) VPromptFn (VText [])) ->
-    forall w ls, good x0 (grun w ls) ls.
+    forall w ls, no_swap ls -> good x0 (grun w ls) ls.
   Proof.
-    intros x0 HS HO w ls. induction ls as [|l ls IH] using rev_ind.
+    intros x0 HS HO w ls. induction ls as [|l ls IH] using rev_ind; intro NS.
     - intro n. unfold grun. cbn [fold_left]. unfold ginit. cbn [g_objs g_prompts g_cmds]. unfold init_obj.
       rewrite HO. repeat split; reflexivity.
-    - intro n. rewrite grun_snoc.
+    - unfold no_swap in NS. rewrite forallb_app in NS. apply andb_prop in NS. destruct NS as [NS NL].
+      specialize (IH NS).
+      assert (SY : g_sys (grun w ls) = Patched) by exact (f_equal fst (grun_sys_patched w ls NS)).
+      intro n. rewrite grun_snoc.
       unfold prompts_hist, pending, cmds_hist. rewrite dbg_hist_snoc.
       destruct (IH n) as (On & Pn & Cn).
       unfold prompts_hist, pending, cmds_hist in *.
       destruct (dbg_hist n ls) as [[ps pend] cs] eqn:Hn. simpl in On, Pn, Cn.
-      destruct l as [a s|m s|m|m c]; unfold dstep.
+      destruct l as [a s|m s|m|m c|m s|m|m]; unfold dstep; try discriminate NL.
+      5: { (* the debugger writes to the patched sys.stdout: nothing of the stream objects changes *)
+           unfold cur_sys_write. rewrite SY. simpl. repeat split; auto. }
       + (* the script writes: nothing of the debugger's changes *)
-        simpl. repeat split; auto.
-      + unfold pdb_stdout; rewrite HS. simpl to_stream. unfold on_obj.
+        unfold cur_sys_write. rewrite SY. simpl. repeat split; auto.
+      + unfold dbg_write, pdb_stdout; rewrite HS. simpl to_stream. unfold on_obj.
         destruct (IH m) as (Om & _). rewrite Om, write_spec. simpl.
         rewrite (Z.eqb_sym n m), String.eqb_refl, andb_true_r.
         destruct (Z.eqb_spec m n) as [->|Hmn].
@@ -787,12 +934,12 @@ Section TwoSink.
 
   (** (3) the texts handed to the prompt function for trace n, and the commands returned to its
       Pdb, are those of the history of n's debugger ALONE; the object holds what is pending *)
-  Lemma grun_prompts : forall w ls n,
+  Lemma grun_prompts : forall w ls n, no_swap ls ->
     for_trace n (g_prompts (grun w ls)) = prompts_hist n ls /\
     for_trace n (g_cmds (grun w ls)) = cmds_hist n ls.
   Proof.
-    intros. destruct (pdb_streams_own prompt) as (x0 & HS & HO).
-    destruct (grun_good x0 HS HO w ls n) as (_ & P & C). split; assumption.
+    intros w ls n NS. destruct (pdb_streams_own prompt) as (x0 & HS & HO).
+    destruct (grun_good x0 HS HO w ls NS n) as (_ & P & C). split; assumption.
   Qed.
 End TwoSink.
 
@@ -812,7 +959,7 @@ Proof.
   induction ls as [|l ls IH] using rev_ind; auto.
   rewrite dbg_hist_snoc, dbg_writes_of_app.
   destruct (dbg_hist prompt n ls) as [[ps pend] cs]. simpl in IH.
-  destruct l as [a s|m s|m|m c]; simpl; rewrite ?app_nil_r; auto.
+  destruct l as [a s|m s|m|m c|m s|m|m]; simpl; rewrite ?app_nil_r; auto.
   - destruct (Z.eqb m n); simpl; rewrite ?app_nil_r; auto. rewrite app_assoc, IH. reflexivity.
   - destruct (Z.eqb m n); simpl; auto.
     destruct (accepts (VText prompt) pend); simpl; auto.
@@ -826,7 +973,7 @@ Proof.
   intros prompt n ls. unfold prompts_hist.
   induction ls as [|l ls IH] using rev_ind; [constructor|].
   rewrite dbg_hist_snoc. destruct (dbg_hist prompt n ls) as [[ps pend] cs]. simpl in IH.
-  destruct l as [a s|m s|m|m c]; simpl; auto.
+  destruct l as [a s|m s|m|m c|m s|m|m]; simpl; auto.
   - destruct (Z.eqb m n); auto.
   - destruct (Z.eqb m n); auto. destruct (accepts (VText prompt) pend) eqn:A; auto.
     simpl. apply Forall_app. split; auto.
@@ -866,7 +1013,7 @@ Lemma hist_pdb_like_gen : forall prompt n ls ps pend cs,
 Proof.
   induction ls as [|l ls IH]; intros ps pend cs H; simpl in *.
   - rewrite app_nil_r. reflexivity.
-  - destruct l as [a s|m s|m|m c]; simpl in *; auto.
+  - destruct l as [a s|m s|m|m c|m s|m|m]; simpl in *; auto.
     + destruct (Z.eqb m n); auto.
     + destruct (Z.eqb m n); auto.
       apply andb_prop in H. destruct H as [A H]. rewrite A.
@@ -893,34 +1040,50 @@ Definition d_prompts (prompt : text) (n : Z) (ls : list dlabel) : list text := f
 Definition d_cmds (prompt : text) (n : Z) (ls : list dlabel) : list text := for_trace n (g_cmds _ (drun prompt ls)).
 
 Lemma model_fold : forall ws st,
-  fold_left (fun w l => org_write (text_of l) (the_callback (actor_of l) (text_of l) w)) ws st = fold_left step ws st.
+  fold_left (wstep (buf * world) the_callback org_write) ws st = fold_left step ws st.
 Proof.
   induction ws as [|[a s] ws IH]; intro st; simpl; auto.
 Qed.
 
-(** the capture state after ANY interleaving is that of Stdout/Model.v run on the script's writes *)
-Lemma drun_is_model : forall prompt ls, g_w _ (drun prompt ls) = run (script_writes ls).
-Proof. intros. unfold drun. rewrite grun_w, model_fold. reflexivity. Qed.
+(** EXACT, with no assumption on what the debugger does: the capture state after ANY interleaving is that of
+    Stdout/Model.v run on the writes that reach the patched sys.stdout ([reaching]: script writes made while
+    sys.stdout is not swapped, AND the debugger's own writes to sys.stdout) *)
+Lemma drun_is_model_reaching : forall prompt ls, g_w _ (drun prompt ls) = run (reaching ls).
+Proof. intros. unfold drun. rewrite grun_w_reaching, model_fold. reflexivity. Qed.
+
+(** when the debugger writes only to the stdout it was constructed with and never swaps sys.stdout, those are the
+    script's writes *)
+Lemma drun_is_model : forall prompt ls, no_sys_write ls -> no_swap ls -> g_w _ (drun prompt ls) = run (script_writes ls).
+Proof. intros. unfold drun. rewrite grun_w by assumption. rewrite model_fold. reflexivity. Qed.
 
 (** (1) *)
-Lemma debugger_text_never_reported : forall prompt ls,
+Lemma debugger_text_never_reported : forall prompt ls, no_sys_write ls -> no_swap ls ->
   d_events prompt ls = d_events prompt (erase_dbg ls) /\ d_events prompt ls = events (script_writes ls).
 Proof.
-  intros. unfold d_events. rewrite !drun_is_model, script_writes_erase. split; reflexivity.
+  intros prompt ls H1 H2. destruct (erase_clean ls) as [E1 E2]. unfold d_events.
+  rewrite !drun_is_model by assumption. rewrite script_writes_erase. split; reflexivity.
 Qed.
 
-Lemma reported_is_script_text : forall prompt ls n, n <> 0 ->
+Lemma reported_is_script_text : forall prompt ls n, no_sys_write ls -> no_swap ls -> n <> 0 ->
   reported_of (Some n) (d_events prompt ls) = upto_last_nl (writes_of (Some n) (script_writes ls)).
 Proof.
-  intros prompt ls n Hn. destruct (debugger_text_never_reported prompt ls) as (_ & E). rewrite E.
+  intros prompt ls n H1 H2 Hn. destruct (debugger_text_never_reported prompt ls H1 H2) as (_ & E). rewrite E.
   apply model_upto; exact Hn.
 Qed.
 
 (** (2) *)
-Lemma real_stdout_gets_everything : forall prompt ls,
+Lemma real_stdout_gets_everything : forall prompt ls, no_sys_write ls -> no_swap ls ->
   d_real prompt ls = map text_of (script_writes ls) /\ d_real prompt ls = real (script_writes ls).
 Proof.
-  intros. unfold d_real. rewrite drun_is_model. fold (real (script_writes ls)). split; [apply real_all|reflexivity].
+  intros. unfold d_real. rewrite drun_is_model by assumption. fold (real (script_writes ls)). split; [apply real_all|reflexivity].
+Qed.
+
+(** without the assumptions: what is reported and what the real stdout receives *)
+Lemma reported_and_real_exact : forall prompt ls,
+  d_events prompt ls = events (reaching ls) /\ d_real prompt ls = map text_of (reaching ls).
+Proof.
+  intros. unfold d_events, d_real. rewrite drun_is_model_reaching. split; [reflexivity|].
+  fold (real (reaching ls)). apply real_all.
 Qed.
 
 (** (2'), whatever the callback does with a state of its own *)
@@ -930,12 +1093,11 @@ Section AnyCallback.
   Definition cbk_any (a : pykey) (t : text) (w : C * list text) : C * list text := (cb a t (fst w), snd w).
   Definition org_any (t : text) (w : C * list text) : C * list text := (fst w, snd w ++ [t]).
 
-  Lemma real_any_callback : forall prompt c0 ls,
+  Lemma real_any_callback : forall prompt c0 ls, no_sys_write ls -> no_swap ls ->
     snd (g_w _ (grun (C * list text) cbk_any org_any prompt (c0, []) ls)) = map text_of (script_writes ls).
   Proof.
-    intros. rewrite grun_w.
-    assert (G : forall ws w, snd (fold_left (fun w l => org_any (text_of l) (cbk_any (actor_of l) (text_of l) w)) ws w)
-                             = snd w ++ map text_of ws).
+    intros. rewrite grun_w by assumption.
+    assert (G : forall ws w, snd (fold_left (wstep _ cbk_any org_any) ws w) = snd w ++ map text_of ws).
     { induction ws as [|l ws IH]; intro w; simpl; [rewrite app_nil_r; reflexivity|].
       rewrite IH. simpl. rewrite <- app_assoc. reflexivity. }
     rewrite G. reflexivity.
@@ -943,36 +1105,100 @@ Section AnyCallback.
 End AnyCallback.
 
 (** (3) *)
-Lemma prompt_text_is_debugger_text : forall prompt ls n,
+Lemma prompt_text_is_debugger_text : forall prompt ls n, no_swap ls ->
   d_prompts prompt n ls = prompts_hist prompt n ls /\ d_cmds prompt n ls = cmds_hist prompt n ls.
-Proof. intros. unfold d_prompts, d_cmds, drun. apply grun_prompts. Qed.
+Proof. intros. unfold d_prompts, d_cmds, drun. apply grun_prompts; assumption. Qed.
 
-Lemma prompt_text_since_last_readline : forall prompt ls n,
+Lemma prompt_text_since_last_readline : forall prompt ls n, no_swap ls ->
   pdb_like prompt n ls = true -> d_prompts prompt n ls = segments n ls.
 Proof.
-  intros prompt ls n H. destruct (prompt_text_is_debugger_text prompt ls n) as (E & _). rewrite E.
+  intros prompt ls n NS H. destruct (prompt_text_is_debugger_text prompt ls n NS) as (E & _). rewrite E.
   apply prompts_since_last_readline; exact H.
 Qed.
 
 (** the prompts of a trace do not depend on the script's writes or on the other traces' debuggers *)
 Definition dbg_only (n : Z) (l : dlabel) : bool :=
-  match l with LDbgWrite m _ | LDbgFlush m | LDbgReadline m _ => Z.eqb m n | LScript _ _ => false end.
+  match l with LDbgWrite m _ | LDbgFlush m | LDbgReadline m _ => Z.eqb m n | _ => false end.
 
 Lemma dbg_hist_only : forall prompt n ls acc,
   fold_left (dbg_hstep prompt n) (filter (dbg_only n) ls) acc = fold_left (dbg_hstep prompt n) ls acc.
 Proof.
   induction ls as [|l ls IH]; intro acc; simpl; auto.
   destruct acc as [[ps pend] cs].
-  destruct l as [a s|m s|m|m c]; simpl; try apply IH;
+  destruct l as [a s|m s|m|m c|m s|m|m]; simpl; try apply IH;
     destruct (Z.eqb m n) eqn:E; simpl; rewrite ?E; apply IH.
 Qed.
 
-Lemma prompts_independent : forall prompt ls n,
+Lemma dbg_only_no_swap : forall n ls, no_swap (filter (dbg_only n) ls).
+Proof.
+  unfold no_swap. induction ls as [|l ls IH]; simpl; auto.
+  destruct l; simpl; auto; destruct (Z.eqb n0 n); simpl; auto.
+Qed.
+
+Lemma prompts_independent : forall prompt ls n, no_swap ls ->
   d_prompts prompt n ls = d_prompts prompt n (filter (dbg_only n) ls).
 Proof.
-  intros. destruct (prompt_text_is_debugger_text prompt ls n) as (E & _).
-  destruct (prompt_text_is_debugger_text prompt (filter (dbg_only n) ls) n) as (E' & _).
+  intros prompt ls n NS. destruct (prompt_text_is_debugger_text prompt ls n NS) as (E & _).
+  destruct (prompt_text_is_debugger_text prompt (filter (dbg_only n) ls) n (dbg_only_no_swap n ls)) as (E' & _).
   rewrite E, E'. unfold prompts_hist, dbg_hist. rewrite dbg_hist_only. reflexivity.
+Qed.
+
+(** ================================================================== 8b. the assumptions are FALSE of CPython's pdb:
+    witnesses (both reproduced against the unchanged /repo by harness/props/c13.py) *)
+
+(** `help pdb`: pdb.do_help -> pydoc.pager -> sys.stdout.write(<the module documentation>): debugger text written
+    under trace 1 reaches the patched write and is REPORTED as output of trace 1 (and erasing it changes the report) *)
+Definition ex_help_pdb : list dlabel :=
+  [LDbgWrite 1 (txt [40; 80; 100; 98; 41; 32]); LDbgReadline 1 (txt [104; 101; 108; 112; 32; 112; 100; 98]);
+   LDbgSysWrite 1 (txt [10; 84; 104; 101; 32; 80; 121; 116; 104; 111; 110; 32; 68; 101; 98; 117; 103; 103; 101; 114; 10]);
+   LScript (Some 1) (txt [104; 105; 10])].
+
+Lemma refuted_help_pdb :
+  no_swap ex_help_pdb /\
+  d_events (txt [40; 80; 100; 98; 41; 32]) ex_help_pdb =
+    [(Some 1, txt [10; 84; 104; 101; 32; 80; 121; 116; 104; 111; 110; 32; 68; 101; 98; 117; 103; 103; 101; 114; 10]);
+     (Some 1, txt [104; 105; 10])] /\
+  d_events (txt [40; 80; 100; 98; 41; 32]) (erase_dbg ex_help_pdb) = [(Some 1, txt [104; 105; 10])] /\
+  d_events (txt [40; 80; 100; 98; 41; 32]) ex_help_pdb <> d_events (txt [40; 80; 100; 98; 41; 32]) (erase_dbg ex_help_pdb).
+Proof. vm_compute. repeat split; try reflexivity. discriminate. Qed.
+
+(** `!import time; time.sleep(0.6)` at a prompt of trace 1 while the thread of trace 2 prints: Pdb.default binds
+    sys.stdout to trace 1's StdInOut process-wide; trace 2's line goes into trace 1's PROMPT TEXT and neither into
+    the report nor to the real stdout *)
+Definition ex_bang_statement : list dlabel :=
+  [LDbgWrite 1 (txt [40; 80; 100; 98; 41; 32]); LDbgReadline 1 (txt [33; 115; 108; 101; 101; 112]);
+   LSwapOn 1; LScript (Some 2) (txt [116; 105; 99; 107; 10]); LSwapOff 1;
+   LDbgWrite 1 (txt [40; 80; 100; 98; 41; 32]); LDbgReadline 1 (txt [99]);
+   LScript (Some 2) (txt [116; 111; 99; 107; 10])].
+
+Lemma refuted_bang_statement :
+  no_sys_write ex_bang_statement /\
+  script_writes ex_bang_statement = [Write (Some 2) (txt [116; 105; 99; 107; 10]); Write (Some 2) (txt [116; 111; 99; 107; 10])] /\
+  d_real (txt [40; 80; 100; 98; 41; 32]) ex_bang_statement = [txt [116; 111; 99; 107; 10]] /\
+  d_events (txt [40; 80; 100; 98; 41; 32]) ex_bang_statement = [(Some 2, txt [116; 111; 99; 107; 10])] /\
+  d_prompts (txt [40; 80; 100; 98; 41; 32]) 1 ex_bang_statement =
+    [txt [40; 80; 100; 98; 41; 32]; txt [116; 105; 99; 107; 10; 40; 80; 100; 98; 41; 32]] /\
+  d_real (txt [40; 80; 100; 98; 41; 32]) ex_bang_statement <> map text_of (script_writes ex_bang_statement).
+Proof. vm_compute. repeat split; try reflexivity. discriminate. Qed.
+
+Lemma never_reported_refuted_help_pdb :
+  exists prompt ls, no_swap ls /\ d_events prompt ls <> d_events prompt (erase_dbg ls) /\
+                    exists n s, In (LDbgSysWrite n s) ls /\ In (Some n, s) (d_events prompt ls).
+Proof.
+  exists (txt [40; 80; 100; 98; 41; 32]), ex_help_pdb.
+  destruct refuted_help_pdb as (A & B & _ & D). split; [exact A|]. split; [exact D|].
+  exists 1, (txt [10; 84; 104; 101; 32; 80; 121; 116; 104; 111; 110; 32; 68; 101; 98; 117; 103; 103; 101; 114; 10]).
+  split; [simpl; auto|]. rewrite B. simpl; auto.
+Qed.
+
+Lemma real_stdout_refuted_bang_statement :
+  exists prompt ls, no_sys_write ls /\ d_real prompt ls <> map text_of (script_writes ls) /\
+                    exists a s, In (LScript (Some a) s) ls /\ ~ In s (d_real prompt ls) /\
+                                ~ In (Some a, s) (d_events prompt ls).
+Proof.
+  exists (txt [40; 80; 100; 98; 41; 32]), ex_bang_statement.
+  destruct refuted_bang_statement as (A & _ & R & E & _ & D). split; [exact A|]. split; [exact D|].
+  exists 2, (txt [116; 105; 99; 107; 10]). split; [simpl; auto 10|]. rewrite R, E. split; simpl; intros [H|[]]; discriminate H.
 Qed.
 
 (** ================================================================== 9. non-vacuity *)
@@ -1001,6 +1227,18 @@ Lemma ex_dbg_runs :
   d_events P_PDB (erase_dbg ex_dbg) = d_events P_PDB ex_dbg.
 Proof. vm_compute. repeat split; reflexivity. Qed.
 
+(** ---- CustomizedPdb defines only __init__/_cmdloop/cmdloop/set_continue (the translator refuses any other member:
+    an override of do_* / message / default could print anywhere), and the calls these make are Pdb's own entry
+    points, the cmdloop hook and logging -- none of them writes *)
+Definition harmless_callee (c : string) : bool :=
+  existsb (String.eqb c)
+    ["super.__init__"; "super.cmdloop"; "self.cmdloop"; "self._cmdloop_hook"; "self._set_stopinfo"; "getLogger"; "logger"]%string.
+
+Lemma pdb_overrides_harmless :
+  forallb (fun m => existsb (String.eqb (fst m)) ["__init__"; "_cmdloop"; "cmdloop"; "set_continue"]%string
+                    && forallb harmless_callee (snd m)) pdb_override_calls = true.
+Proof. vm_compute. reflexivity. Qed.
+
 (** ---- (stated last, so that a more specific obligation above fails first) *)
 (** the stream that is wrapped is sys.stdout, with the caller's callback; nothing else in the child's
     code mentions print / sys.stdout / sys.__stdout__ *)
@@ -1015,6 +1253,9 @@ Definition DS (a : pykey) (l : list Z) : dlabel := LScript a (txt l).
 Definition DW (n : Z) (l : list Z) : dlabel := LDbgWrite n (txt l).
 Definition DF (n : Z) : dlabel := LDbgFlush n.
 Definition DR (n : Z) (l : list Z) : dlabel := LDbgReadline n (txt l).
+Definition DSW (n : Z) (l : list Z) : dlabel := LDbgSysWrite n (txt l).
+Definition DON (n : Z) : dlabel := LSwapOn n.
+Definition DOFF (n : Z) : dlabel := LSwapOff n.
 
 Definition keyed (l : list (Z * text)) : calls := map (fun p => (Some (fst p), snd p)) l.
 
